@@ -611,11 +611,13 @@ class MathExpression(object):
                 for var1 in variables:
                     if var1.lower() == var2.lower():
                         caselist.add(var1)
+            # Format first: the suggested names may contain braces (e.g. a_{1})
+            message = message.format(varnames)
             if len(caselist) > 0:
                 betternames = "', '".join(sorted(caselist))
                 message += " (did you mean '" + betternames + "'?)"
 
-            raise UndefinedVariable(message.format(varnames))
+            raise UndefinedVariable(message)
 
         bad_funcs = set(func for func in self.functions_used if func not in functions)
         if bad_funcs:
@@ -632,11 +634,13 @@ class MathExpression(object):
                 for func1 in functions:
                     if func2.lower() == func1.lower():
                         caselist.add(func1)
+            # Format first: the suggested names may contain braces (e.g. f_{1})
+            message = message.format(funcnames)
             if len(caselist) > 0:
                 betternames = "', '".join(sorted(caselist))
                 message += " (did you mean '" + betternames + "'?)"
 
-            raise UndefinedFunction(message.format(funcnames))
+            raise UndefinedFunction(message)
 
         bad_suffixes = set(suff for suff in self.suffixes_used if suff not in suffixes)
         if bad_suffixes:
